@@ -1,4 +1,4 @@
-import MpsVerif.Proofs.ServletContract
+import MpsVerif.Proofs.ServletLift
 /-!
 # C04 — a failing request fails alone, with its original error: the servlet-tree layer
 
@@ -26,6 +26,20 @@ theorem C04_isolated {o : Val → List Val} {recv : List Msg} {sentG : List GMsg
     y ∈ o x ∧ ∀ r, o x = [r] → y = r := by
   have := h.no_crosstalk hn u x y hx hy
   exact ⟨this, fun r hr => by rw [hr] at this; simpa using this⟩
+
+/-- **isolation, whole tree**: in every behaviour of every concrete servlet tree with distinct input
+    uids, the outcome of the request that entered as `(u, x)` is an allowed outcome of `x` alone; if
+    the denotation is deterministic for `x` (`outs t x = [r]`: no fail-fast ensemble and no failing
+    batched call on its path) it is `r` — whatever the other requests are, whether they fail, and
+    whatever the schedule -/
+theorem C04_isolated_tree (t : Tree) (hw : WF t) (σ : List Ev) (htr : Tr t σ) (hd : DistinctIn σ)
+    (u : Nat) (x y : Val) (hx : Ev.inp (u, x) ∈ σ) (hy : Ev.out (u, y) ∈ σ) :
+    y ∈ outs t x ∧ ∀ r, outs t x = [r] → y = r := by
+  have hs := tree_sat t hw σ htr hd
+  obtain ⟨x', h1, h2⟩ := hs.out_mem u y hy
+  have : x' = x := fst_unique hd (mem_filterMap_inpOf.mpr h1) (mem_filterMap_inpOf.mpr hx)
+  subst this
+  exact ⟨h2, fun r hr => by rw [hr] at h2; simpa using h2⟩
 
 /-- a request whose own path has no failure is never answered with an exception because of others:
     for a simple servlet, an exception outcome is the request's own input exception, its own
